@@ -2,4 +2,4 @@ From Coq Require Import ZArith NArith List Extraction ExtrOcamlBasic.
 From FEC Require Import Models.FileScanM Models.FileIndexIOM Models.ExtractLogM.
 Extraction Language OCaml.
 Set Extraction Output Directory ".".
-Extraction "c18_x.ml" extract file_frames spec_output spec_count fresh_saved fresh to_raw to_raw_legacy parse_records read_all index_offsets Z.of_N.
+Extraction "c18_x.ml" extract extract_over file_frames spec_output spec_count fresh_saved fresh to_raw to_raw_legacy parse_records read_all index_offsets Z.of_N.
